@@ -11,7 +11,8 @@ The `cipher` / `inout` crates turn every public call shape into backend calls on
  B  buffer discipline: (1) interpreted with separate buffers, every backend entry leaves the input buffer object
     untouched; (2) a reference obtained from `InOut::get_out()` is never re-borrowed shared or handed to a reader
     (output is written, never read as input); (3) with Herbrand terms, no output byte term mentions the initial content
-    of the output buffer.
+    of the output buffer; (4) the single-block routine yields the same output terms in place (output pointer = input
+    pointer) and with separate buffers -- so every buffer-to-buffer shape is the in-place function.
 """
 import os
 from facts import *
@@ -60,7 +61,7 @@ def backend_pairs(m):
     return out
 
 
-def run_backend(m, f, self_ty, in_val, tag):
+def run_backend(m, f, self_ty, in_val, tag, alias=False):
     I = engine.mk_interp(m, 30_000_000)
     st = State()
     I.entry_state = st
@@ -81,6 +82,8 @@ def run_backend(m, f, self_ty, in_val, tag):
             if fd['name'].startswith('in'):
                 st.mem[obj] = in_val if in_val is not None else I.top(fdd['t'], 'x')
                 in_obj = obj
+            elif alias and in_obj is not None:
+                obj = out_obj = in_obj            # in-place call: the output pointer is the input pointer
             else:
                 st.mem[obj] = I.top(fdd['t'], 'o')
                 out_obj = obj
@@ -325,6 +328,23 @@ def backend_job(job):
                         '%s::%srypt_block: output byte %d depends on the previous content of the output buffer' % (sname, direction, stale[0])))
         else:
             out.append(('ok', 'B-output-not-read', base + '|single|terms', None))
+        # B4: the in-place call (output pointer = input pointer) computes the same terms as the call with separate buffers
+        if not sname.startswith(PAR_UNDECIDED):
+            Ia, sta, status_a, ra, ain, aout, _ab = run_backend(m, single, self_ty, before, 'a', alias=True)
+            if status_a != 'ok':
+                out.append(('fc', 'B-inplace-equals-b2b', base + '|single|' + status_a, '%s: %s' % (sname, str(ra)[:200])))
+            else:
+                oa = flatten(Ia, sta.mem[aout], block_ty) or []
+                diff = [i for i, (x, y) in enumerate(zip(ob, oa)) if x.term is None or y.term is None or x.term is not y.term]
+                if any(x.term is None for x in ob) or any(y.term is None for y in oa):
+                    # the routine branches on an unknown instance field (Twofish.start, Cast5.small_key, ...): no term to compare
+                    out.append(('undec', 'B-inplace-equals-b2b', base + '|single', '%s: in-place = separate-buffer comparison needs a term for every output byte' % sname))
+                elif len(oa) != len(ob) or diff:
+                    out.append(('v', 'B-inplace-equals-b2b', base + '|single',
+                                '%s::%srypt_block: with separate input and output buffers output byte %s differs from the in-place call: %s' % (
+                                    sname, direction, diff[0] if diff else '?', T.first_diff(ob[diff[0]].term, oa[diff[0]].term) if diff else 'shape')))
+                else:
+                    out.append(('ok', 'B-inplace-equals-b2b', base + '|single', None))
         if par is None:
             return out
         Ip, stp, status, r, pin, pout, pbefore = run_backend(m, par, self_ty, None, 'p')
